@@ -835,6 +835,9 @@ func (e *Engine) builtin(st *State, name string, args []AV, c *ssa.CallCommon) A
 				return sy
 			}
 		}
+		if _, isSym := args[0].(avSym); isSym {
+			return avSym{tag: "len", payload: args[0]}
+		}
 		return avSym{id: e.fresh(), tag: "len", payload: args[0]}
 	case "append":
 		base, _ := args[0].(avSlice)
@@ -922,6 +925,13 @@ func (e *Engine) eval(fr *frame, st *State, in ssa.Value) AV {
 		return nil
 	case *ssa.Index:
 		x := e.val(fr, st, in.X)
+		if ix, ok := e.D.(interface {
+			Index(e *Engine, st *State, x, idx AV, site *ssa.Index) (AV, bool)
+		}); ok {
+			if v, handled := ix.Index(e, st, x, e.val(fr, st, in.Index), in); handled {
+				return v
+			}
+		}
 		if sv, ok := x.(avStruct); ok {
 			if c, ok := st.KnownInt(e.val(fr, st, in.Index)); ok {
 				if v, ok := sv.f[fmt.Sprintf("[%d]", c)]; ok {
@@ -1078,6 +1088,16 @@ func (e *Engine) eval(fr *frame, st *State, in ssa.Value) AV {
 			if okb && lo >= 0 && hi <= int64(len(s)) && lo <= hi {
 				return avConst{constant.MakeString(s[lo:hi])}
 			}
+		}
+		if _, isSym := x.(avSym); isSym {
+			var lo, hi AV = avConst{constant.MakeInt64(0)}, avSym{tag: "len", payload: x}
+			if in.Low != nil {
+				lo = e.val(fr, st, in.Low)
+			}
+			if in.High != nil {
+				hi = e.val(fr, st, in.High)
+			}
+			return avSym{tag: "slice", payload: avTuple{x, lo, hi}}
 		}
 		return avSym{id: e.fresh(), tag: "slice", payload: x}
 	case *ssa.Range:
